@@ -19,9 +19,11 @@ use serde_json::{json, Value};
 
 pub fn run(ctx: &mut Ctx) {
     for case in ctx.cases("hash", 700, true) {
-        ctx.run_case("hash", case, |ctx, rng| match case % 3 {
+        ctx.run_case("hash", case, |ctx, rng| match case % 5 {
             0 => hash_case::<{ primes::U32_TINY }>(ctx, rng, "U32_TINY"),
             1 => hash_case::<{ primes::U32_SMALL }>(ctx, rng, "U32_SMALL"),
+            2 => hash_case::<{ primes::U128_LARGE_3 }>(ctx, rng, "U128_LARGE_3"),
+            3 => hash_case::<{ crate::semi::M107 }>(ctx, rng, "user prime 2^107-1"),
             _ => hash_case::<{ primes::U64_LARGEST }>(ctx, rng, "U64_LARGEST"),
         });
     }
